@@ -45,7 +45,7 @@ def load_known():
     return json.load(open(p))
 
 
-def match_known(known, prop, cid, kind, label, inp=None, observed=None):
+def match_known(known, prop, cid, kind, label, inp=None, observed=None, vkind=None):
     import re as _re
     for k in known:
         if k.get('status') != 'known' or k.get('property') != prop:
@@ -59,6 +59,8 @@ def match_known(known, prop, cid, kind, label, inp=None, observed=None):
         if k.get('input_regex') and (inp is None or not _re.search(k['input_regex'], inp)):
             continue
         if k.get('observed_regex') and (observed is None or not _re.search(k['observed_regex'], observed, _re.S)):
+            continue
+        if k.get('kind_regex') and (vkind is None or not _re.search(k['kind_regex'], vkind)):
             continue
         return k
     return None
@@ -201,7 +203,13 @@ def run_check(prop, tier, seed):
                 it = Item('%s/%s' % (prop, r['id']), r.get('contract', prop + '.inventory'),
                           r.get('kind', 'inventory'), r['label'])
                 it.backend = 'ast'
-                it.result = {True: 'unsat', False: 'sat', None: 'unknown'}[r['ok']]
+                ok = r['ok']
+                if ok is False and not r.get('definite', False):
+                    # the expected text was not found, but no recognised violating pattern either: the shape of the
+                    # anchored code changed (a renamed local, an added statement ...) -> undecided, never an alarm
+                    ok = None
+                    it.reason = 'shape of the anchored code changed: expected form not found, no recognised violation'
+                it.result = {True: 'unsat', False: 'sat', None: 'unknown'}[ok]
                 it.detail = r.get('detail', '')
                 it.structural = True
                 items.append(it)
@@ -373,7 +381,7 @@ def run_check(prop, tier, seed):
         n_known = 0
         for v in b.get('violations', []):
             k = match_known(known, prop, b.get('contract', ''), 'bounded', v.get('label', ''), str(v.get('input', '')),
-                            str(v.get('observed', '')))
+                            str(v.get('observed', '')), str(v.get('kind', '')))
             if k is not None:
                 n_known += 1
                 line = 'KNOWN-FINDING: property=%s %s' % (prop, k['what'])
